@@ -27,22 +27,23 @@ THEOREMS = ["C08_mean_obliquity_polynomial", "C08_mean_obliquity_vs_IAU", "C08_t
             "C08_true_obliquity_structure", "C08_sun_errors_propagate", "C08_equinox_frame_refuted",
             "C08_node_nutation_constants",
             "C08_nutation_longitude_structure", "C08_nutation_obliquity_structure", "C08_nutation_remainders",
-            "C08_nutation_longitude_main_term", "C08_nutation_obliquity_main_term"]
+            "C08_nutation_longitude_main_term", "C08_nutation_obliquity_main_term",
+            "C08_true_obliquity_closed"]
 PROOF_TIMEOUT = {"quick": 2200, "thorough": 3000}
 EXHAUSTIVE = False
 MANIFEST = {
     "category": "proof",
-    "text": "Ideal (real-number) instance of the regenerated model, Epoch arguments, callees abstracted (conditional on their documented result shapes, which the bit-exact correspondence validates every run). PROPERTY CLAUSES PROVED: mean obliquity = Laskar polynomial and within 3 arcsec of the IAU cubic for |T| <= 20; true obliquity = Angle sum of mean obliquity and whatever nutation_obliquity returns; Sun geometric/apparent position = Earth callee's result reflected (errors propagate); J2000 rectangular norm = r to 2e-12; arbitrary-equinox rotation exactly orthogonal; of-date rectangular norm^2 = r^2 (1 + sin^2 lat) (weaker than norm = r: needs |lat| small, unproved). REFUTED IN COQ (known findings): B1950 norm (~ C08_b1950_norm_full), equinox rotation vs Meeus T = 0 beyond 2 arcsec (~ C08_equinox_frame_full). CLOSED FORMS THAT ONLY PIN THE CODE (no property clause follows): rectangular_coordinates_j2000/_b1950/_equinox, true/apparent_longitude_coarse, Moon.longitude_mean_ascending_node; C08_node_agreement is spec-level (nutation side not bridged). UNPROVED, SEARCHED ONLY - the headline numeric clauses: frame agreement with the library's precession (2 arcsec / 1e-5 AU; 3 genuine defects recorded as bounded known findings), nutation within 3.5 / 1.5 arcsec of the main-term model, coarse vs VSOP87 0.02 degree, date-argument forms.",
+    "text": "Ideal (real-number) instance of the regenerated model, Epoch arguments. PROPERTY CLAUSES PROVED: mean obliquity = Laskar polynomial and within 3 arcsec of the IAU cubic for |T| <= 20; nutation in longitude / obliquity within 3.5 / 1.5 arcsec of the main term on the Moon module's node for |T| <= 20 (generic loop theorem instantiated on the generated double loop, amplitude sums over the extracted tables, node polynomials bridged on both sides); true obliquity = mean + nutation unconditionally for |T| <= 20; Sun geometric/apparent position = Earth callee's result reflected (CONDITIONAL on the callee's documented result shape, which the bit-exact correspondence validates every run; errors propagate); J2000 rectangular norm = r to 2e-12 (same condition); arbitrary-equinox rotation exactly orthogonal; of-date rectangular norm^2 = r^2 (1 + sin^2 lat) (weaker than norm = r: needs |lat| small, unproved). REFUTED IN COQ (known findings): B1950 norm (~ C08_b1950_norm_full), equinox rotation vs Meeus T = 0 beyond 2 arcsec (~ C08_equinox_frame_full). CLOSED FORMS THAT ONLY PIN THE CODE (no property clause follows): rectangular_coordinates_j2000/_b1950/_equinox, true/apparent_longitude_coarse, Moon.longitude_mean_ascending_node. UNPROVED, SEARCHED ONLY: frame agreement with the library's precession (2 arcsec / 1e-5 AU; 3 genuine defects recorded as bounded known findings), coarse vs VSOP87 0.02 degree, date-argument forms other than Epoch, everything about binary64 rounding.",
     "technique": "symbolic evaluation (pyrun / call-by-value pyrunv) of the generated model over the reals with opaque callees + interval/lra/ring; generated model + bit-exact differential correspondence; dense search for the numeric clauses",
     "design_ref": "8/C08",
 }
 EXPLANATION = ("The Coq model of Sun/Earth/Coordinates/Moon regenerated from /repo is read over the real numbers (same text as the "
-               "binary64 instance that is compared bit for bit with the implementation). Property clauses proved there (Epoch arguments, callees "
-               "abstracted by their documented result shape): mean obliquity vs IAU cubic (3 arcsec, |T| <= 20), true = mean + nutation, Sun = Earth "
-               "reflected, J2000 and arbitrary-equinox rectangular norms. Refuted there: B1950 norm, equinox rotation vs Meeus' T = 0 (known findings). "
+               "binary64 instance that is compared bit for bit with the implementation). Property clauses proved there (Epoch arguments): mean "
+               "obliquity vs IAU cubic (3 arcsec, |T| <= 20), nutation in longitude/obliquity vs the main term on the Moon's node (3.5 / 1.5 arcsec, "
+               "|T| <= 20), true = mean + nutation, Sun = Earth reflected (Earth callee abstracted by its documented result shape), J2000 and "
+               "arbitrary-equinox rectangular norms. Refuted there: B1950 norm, equinox rotation vs Meeus' T = 0 (known findings). "
                "Closed forms of the frame functions, the coarse formulas and the Moon node pin every constant of the code but prove no clause. "
-               "The headline numeric clauses (frame agreement with the library's precession, nutation vs main term, coarse vs VSOP87) are "
-               "searched densely on the implementation, not proved.")
+               "Frame agreement with the library's precession and coarse vs VSOP87 are searched densely on the implementation, not proved.")
 CLAUSES = {
     # wording: "property clause proved" = a clause of the property text is a theorem;
     #          "closed form (pins the code)" = the generated function equals an explicit formula: a mutation of any
@@ -57,7 +58,7 @@ CLAUSES = {
     "mean obliquity within 3 arcsec of the IAU cubic for |T| <= 20": "property clause proved [ideal, for an Epoch argument]: the generated function is the explicit Laskar polynomial and interval bounds it against the independent IAU cubic",
     "nutation in longitude within 3.5 arcsec of -17.20 sin(Omega), Omega = Moon.longitude_mean_ascending_node": "property clause proved [ideal, Epoch argument, |T| <= 20 centuries]: C08_nutation_longitude_main_term - the generated double loop is an instance of the generic loop theorem (C08_nut_loop.nut_fix_spec, induction, any table length; unification with the generated text), so nutation_longitude = Angle(0,0, sum_i (a_i + b_i T) sin(sum_j n_ij F_j(T))/1e4) on the extracted tables (C08_nutation_longitude_structure); the rows after the first are bounded by their amplitudes read from the table: 2.25 arcsec (C08_nutation_remainders); the code's node polynomial is C08_node.node_nutation (reflexivity) and within 0.0024 deg of the Moon module's (C08_node_agreement, < 0.001 arcsec on the main term). Binary64 rounding: searched (worst 2.43 arcsec over -2000..4000)",
     "nutation in obliquity within 1.5 arcsec of 9.20 cos(Omega)": "property clause proved [ideal, Epoch argument, |T| <= 20 centuries]: C08_nutation_obliquity_main_term, same construction with the cosine table (49 rows; remainder 0.89 arcsec from the extracted amplitudes). Binary64 rounding: searched (worst 0.83 arcsec over -2000..4000)",
-    "true obliquity = mean obliquity + nutation in obliquity": "property clause proved [ideal, Epoch argument, |T| <= 20]: C08_true_obliquity_structure is unconditional (true_obliquity = Angle.__add__(mean obliquity, whatever nutation_obliquity returns), errors propagate); C08_true_obliquity_is_sum is the corollary for callee results of Angle shape",
+    "true obliquity = mean obliquity + nutation in obliquity": "property clause proved [ideal, Epoch argument, |T| <= 20], unconditionally: C08_true_obliquity_closed supplies both callee results from their own theorems (mean_obliquity polynomial, nutation_obliquity structure) and gives true_obliquity = ang(mean + deps/3600); C08_true_obliquity_structure is the form valid for any result of nutation_obliquity (errors propagate); C08_true_obliquity_is_sum is the conditional corollary, its premises now shown satisfiable",
     "coarse solar formulas within 0.02 degree of VSOP87 in 1800-2200": "UNPROVED (searched): worst 0.0095 degree; global numeric statement about a 1000-term series. In Coq only closed forms (pin the code): true_longitude_coarse for |t| <= 10 centuries, apparent_longitude_coarse with its callee abstracted; C08_coarse_constants is a constant read-out; apparent_rightascension_declination_coarse has no theorem",
     "date arguments in every accepted form": "UNPROVED (searched): all theorems are for an Epoch argument; the other forms go through Epoch.check_input_date (C02); every documented form of a calendar day gives the same Angle (searched)",
     "known-finding keys": "frame-j2000 / frame-earth-j2000 <= 160 arcsec & 8e-4 AU, frame-equinox <= 290 arcsec & 1.5e-3 AU, frame-b1950 <= 8000 arcsec & 4e-2 AU, norm-b1950 <= 2e-2 AU, beyond: <key>-gross. The b1950 envelope is necessarily wide (2.2 degrees) while the overwrite stays; a further defect inside any envelope is caught by frame-*-unexpected (code must equal the defect-free or the known-defect recomputation to 2.5e-7 AU) and frame-*-vs-corrected (the defect-free recomputation must meet the 2 arcsec clause)",
@@ -67,7 +68,7 @@ CLAUSES = {
 def proof_files(tier):
     return ["C08_base.v", "C08_obliquity.v", "C08_sun.v", "C08_j2000.v", "C08_angle2.v", "C08_frames.v",
             "C08_equinox.v", "C08_coarse.v", "C08_node.v",
-            "C08_nut_angle.v", "C08_nut_loop.v", "C08_nut_main.v", "C08_nut_bound.v", "C08.v"]
+            "C08_nut_angle.v", "C08_nut_loop.v", "C08_nut_main.v", "C08_nut_bound.v", "C08_true.v", "C08.v"]
 
 
 # ----------------------------------------------------------------------------------------------
